@@ -3,7 +3,7 @@
 # (and record the outcome in seeded/<name>/meta.json). /repo is restored after each one.
 TIER="${1:-quick}"
 cd /verif || exit 2
-for d in seeded/*/; do
+for d in seeded/C*/; do
   n=$(basename "$d"); p=$(echo "$n" | cut -c1-3)
   out=$(tools/try_mutant.sh "/verif/$d/patch.diff" "$p" "$TIER" 2>&1)
   rc=$(echo "$out" | sed -n 's/^rc=//p')
